@@ -186,6 +186,18 @@ void h_erand48 (void)
 void h_lrand48 (void) { long r = Imath_lrand48 (); (void) r; VF_END (); }
 void h_drand48 (void) { double r = Imath_drand48 (); (void) r; VF_END (); }
 void h_srand48 (void) { VF_IN (long, in_seed); srand48__long (in_seed); VF_END (); }
+#else
+/* natively the static state is private to the library: observe it through the next draw */
+void h_srand48 (void)
+{
+    VF_IN (long, in_seed);
+    srand48__long (in_seed);
+    long r = Imath_lrand48 ();
+    uint64_t X0 = SPEC_X48 (0x330E, (unsigned short) (in_seed & 0xffff), (unsigned short) ((in_seed >> 16) & 0xffff));
+    VF_POST (POST_NRAND (r, X0), "srand48(seed); lrand48() is the POSIX value for that seed");
+}
+void h_lrand48 (void) { h_srand48 (); }
+void h_drand48 (void) { h_srand48 (); }
 #endif
 #define IN_R32() VF_IN (unsigned long, in_state); struct Rand32 g; g._state = in_state
 void h_r32_init (void) { IN_R32 (); VF_IN (unsigned long, in_seed); Rand32_init__ulong (&g, in_seed); VF_POST (g._state == ((in_seed * 0xa5a573a5ul) ^ 0x5a5a5a5aul), "Rand32::init"); VF_END (); }
